@@ -98,6 +98,15 @@ func computeBytePredicateBound(e *Engine, fn *ssa.Function, bound map[int]consta
 
 // evalPure interprets the small pure function fn with its parameters bound to constants (nil: unused).
 func evalPure(e *Engine, fn *ssa.Function, args []constant.Value, depth int) (constant.Value, bool) {
+	rs, ok := evalPureTuple(e, fn, args, depth, 1)
+	if !ok || len(rs) != 1 {
+		return nil, false
+	}
+	return rs[0], true
+}
+
+// evalPureTuple: like evalPure for a function with nres results.
+func evalPureTuple(e *Engine, fn *ssa.Function, args []constant.Value, depth int, nres int) ([]constant.Value, bool) {
 	if fn == nil || len(fn.Blocks) == 0 || depth > 4 || fnPkg(fn) == nil || !core.InModule(fnPkg(fn)) || len(fn.FreeVars) > 0 {
 		return nil, false
 	}
@@ -261,14 +270,18 @@ func evalPure(e *Engine, fn *ssa.Function, args []constant.Value, depth int) (co
 				prev = blk
 				blk = blk.Succs[0]
 			case *ssa.Return:
-				if len(x.Results) != 1 {
+				if len(x.Results) != nres {
 					return nil, false
 				}
-				r, ok := get(x.Results[0])
-				if !ok {
-					return nil, false
+				var out []constant.Value
+				for _, rv := range x.Results {
+					r, ok := get(rv)
+					if !ok {
+						return nil, false
+					}
+					out = append(out, r)
 				}
-				return r, true
+				return out, true
 			case *ssa.DebugRef:
 			default:
 				return nil, false
@@ -276,4 +289,104 @@ func evalPure(e *Engine, fn *ssa.Function, args []constant.Value, depth int) (co
 		}
 	}
 	return nil, false
+}
+
+// byteFunction: a pure function of one byte that returns a small integer (digitValue(c), classOf(c)): its value table
+// over all 256 bytes, computed like the truth table of a predicate; the call is then a [256]int table look-up.
+var byteFnCache sync.Map // *ssa.Function -> *[256]int64 (nil: not such a function)
+
+func (e *Engine) byteFunction(fn *ssa.Function) *[256]int64 {
+	if v, ok := byteFnCache.Load(fn); ok {
+		t, _ := v.(*[256]int64)
+		return t
+	}
+	var out *[256]int64
+	func() {
+		if fn == nil || len(fn.Blocks) == 0 || len(fn.Blocks) > 24 || len(fn.Params) != 1 || len(fn.FreeVars) > 0 || fnPkg(fn) == nil || !core.InModule(fnPkg(fn)) {
+			return
+		}
+		if !isByteType(fn.Params[0].Type()) || fn.Signature.Results().Len() != 1 {
+			return
+		}
+		if b, ok := fn.Signature.Results().At(0).Type().Underlying().(*types.Basic); !ok || b.Info()&types.IsInteger == 0 {
+			return
+		}
+		var t [256]int64
+		for c := 0; c < 256; c++ {
+			v, ok := evalPure(e, fn, []constant.Value{constant.MakeInt64(int64(c))}, 0)
+			if !ok || v.Kind() != constant.Int {
+				return
+			}
+			x, exact := constant.Int64Val(v)
+			if !exact {
+				return
+			}
+			t[c] = x
+		}
+		out = &t
+	}()
+	if out == nil {
+		byteFnCache.Store(fn, (*[256]int64)(nil))
+	} else {
+		byteFnCache.Store(fn, out)
+	}
+	return out
+}
+
+// byteTupleFunction: a pure function of one byte with several integer/boolean results (numericPrefix(c) (base int,
+// tt TokenType)): its results for each of the 256 bytes.
+var byteTupCache sync.Map // *ssa.Function -> *[256][]int64
+
+func (e *Engine) byteTupleFunction(fn *ssa.Function) *[256][]int64 {
+	if v, ok := byteTupCache.Load(fn); ok {
+		t, _ := v.(*[256][]int64)
+		return t
+	}
+	var out *[256][]int64
+	func() {
+		if fn == nil || len(fn.Blocks) == 0 || len(fn.Blocks) > 32 || len(fn.Params) != 1 || len(fn.FreeVars) > 0 || fnPkg(fn) == nil || !core.InModule(fnPkg(fn)) {
+			return
+		}
+		nres := fn.Signature.Results().Len()
+		if !isByteType(fn.Params[0].Type()) || nres < 2 || nres > 4 {
+			return
+		}
+		for i := 0; i < nres; i++ {
+			if b, ok := fn.Signature.Results().At(i).Type().Underlying().(*types.Basic); !ok || b.Info()&(types.IsInteger|types.IsBoolean) == 0 {
+				return
+			}
+		}
+		var t [256][]int64
+		for c := 0; c < 256; c++ {
+			vs, ok := evalPureTuple(e, fn, []constant.Value{constant.MakeInt64(int64(c))}, 0, nres)
+			if !ok {
+				return
+			}
+			for _, v := range vs {
+				switch v.Kind() {
+				case constant.Int:
+					x, exact := constant.Int64Val(v)
+					if !exact {
+						return
+					}
+					t[c] = append(t[c], x)
+				case constant.Bool:
+					if constant.BoolVal(v) {
+						t[c] = append(t[c], 1)
+					} else {
+						t[c] = append(t[c], 0)
+					}
+				default:
+					return
+				}
+			}
+		}
+		out = &t
+	}()
+	if out == nil {
+		byteTupCache.Store(fn, (*[256][]int64)(nil))
+	} else {
+		byteTupCache.Store(fn, out)
+	}
+	return out
 }
